@@ -320,6 +320,10 @@ def crafted(run):
     pair('many', 'numpy(40, 30, 4) 1200 traces', (40, 30, 4), 32, (4, 4, -1), run.seed + 72,
          ilines=100 + np.arange(40), xlines=7 + 3 * np.arange(30), samples=4.0 * np.arange(4))
     pair('brick', 'numpy(13, 10, 40) b(4, 8, 32) with a sibling', (13, 10, 40), 32, (4, 8, 32), run.seed + 73)
+    # default layout, traces of two disk blocks (preload addresses the in-memory volume by block too)
+    pt = os.path.join(d, 'tall.sgz')
+    writers.numpy_to_sgz(pt, inputs.cube((5, 6, 300), run.seed + 75), 8, (4, 4, -1))
+    out.append(session.FileCase(pt, label='numpy(5, 6, 300) r8 b(4, 4, 256): two sample blocks per trace'))
     # two 2-D lines of the same geometry (trace groups of 4)
     import segyio
     paths = []
